@@ -405,7 +405,8 @@ class LoopSpec:
     the syntactically assigned ones."""
 
     def __init__(self, inv, k='k', types=None, extra_havoc=(), facts=(), exit=None, body_post=None, hints=None,
-                 head_hook=None, peel=False, body_post_on_break=True):
+                 head_hook=None, peel=False, body_post_on_break=True, it=None):
+        self.it = it                             # spec-level name of the loop's iterable (e.g. 'BINS')
         self.body_post_on_break = body_post_on_break   # an iteration that ends in `break` is an iteration: body_post is owed
         self.inv = list(inv.items()) if isinstance(inv, dict) else list(inv)
         self.exit = dict(exit or {})
@@ -2182,6 +2183,8 @@ class Engine:
         it = self.eval(node.iter, fr)
         if spec is not None:
             fr.env['IT%d' % ordinal] = it
+            if spec.it:
+                fr.env[spec.it] = it.items if isinstance(it, GenResult) else it
         if spec is None:
             saved = fr.loop_ordinal
             items = self.iterate_concrete(it)
